@@ -16,6 +16,10 @@ TRACE_MOD = os.path.join(SPECS, "BatchingTrace.tla")
 TRACE_CFG = os.path.join(SPECS, "BatchingTrace.cfg")
 CTRACE_MOD = os.path.join(SPECS, "BatchingCollateTrace.tla")
 CTRACE_CFG = os.path.join(SPECS, "BatchingCollateTrace.cfg")
+DMOD = os.path.join(SPECS, "BatchingDir.tla")
+DTRACE_MOD = os.path.join(SPECS, "BatchingDirTrace.tla")
+DTRACE_CFG = os.path.join(SPECS, "BatchingDirTrace.cfg")
+DIR_ACTIONS = ["DoOpen", "DoWrite", "HFeed", "HEmitFull", "HEndFeed", "HFlush", "HFinish"]
 BUCKET_ACTIONS = ["Feed", "DoEmitFull", "EndFeed", "DoFlush", "Finish"]
 NFILT = 2
 
@@ -24,7 +28,8 @@ def run_design(ctx):
     t = ctx.tier
     jobs = [("Batching/direct", MOD, "Batching_direct_%s.cfg" % t, BUCKET_ACTIONS),
             ("Batching/lengths", MOD, "Batching_lengths_%s.cfg" % t, BUCKET_ACTIONS),
-            ("BatchingCollate", CMOD, "BatchingCollate_%s.cfg" % t, ["Collate"])]
+            ("BatchingCollate", CMOD, "BatchingCollate_%s.cfg" % t, ["Collate"]),
+            ("BatchingDir", DMOD, "BatchingDir_%s.cfg" % t, DIR_ACTIONS)]
     results, errs = {}, []
 
     def job(name, mod, cfg):
@@ -47,7 +52,7 @@ def run_design(ctx):
     recs = []
     for name, _, _, _ in jobs:
         recs += results[name].records
-    out = dict(case=[], done=[], collate=[], window=[])
+    out = dict(case=[], done=[], collate=[], window=[], hist=[])
     for r in recs:
         out[r["what"]].append(r)
     for k, v in out.items():
@@ -119,9 +124,10 @@ def abstract_trace(tid, n, events, idx2bucket, bucket2size, drop, lens=None, nbr
             evs.append(dict(op="stop", a=int(e[1]), items=[]))
     npos = max(n, len(pos))
     i2b = [bnum[idx2bucket[real_at[p]]] if p in real_at else 0 for p in range(npos)]
+    # ord: feed position -> real index (BatchingDirTrace reads the lengths off its own directory state)
     return dict(tid=tid, n=n, lens=[int(lens[real_at[p]]) for p in range(npos)] if lens is not None else [],
                 nbreq=nbreq, bsz=bsz, dyn=bool(dyn), i2b=i2b, size=[int(bucket2size[k]) for k in keys],
-                drop=bool(drop), events=evs)
+                drop=bool(drop), events=evs, ord=[real_at[p] for p in range(npos) if p in real_at])
 
 
 # ----------------------------------------------------------------------------- data directories
@@ -166,6 +172,48 @@ def build_dir(root, Ts, Rs, with_ali=True, with_ref=True, two_d=False, prefix=""
         if with_ref:
             torch.save(ref_tensor(i + 1, Rs[i], two_d), os.path.join(root, "ref", fn))
     return root
+
+
+class HistDir:
+    """ONE real directory path holding two renditions ("a", "b") of the same utterance ids, whose files
+    the harness regenerates on request.  spect: rendition = feature sub-directory (feat/, feat_b/) of one
+    SpectDataSet directory with a shared ref/; lang: rendition = file prefix (a_, b_) inside one
+    LangDataSet directory.  Has the `get` of the C14 driver's DirPool (used by make_loader)."""
+
+    def __init__(self, root, kind, n):
+        self.root, self.kind, self.n = root, kind, n
+        self.Rs_fixed = [1 + (i % 3) for i in range(n)]
+        self.lens = {}
+        self.current = None
+        os.makedirs(os.path.join(root, "ref"), exist_ok=True)
+        if kind == "spect":
+            for i in range(n):
+                torch.save(ref_tensor(i + 1, self.Rs_fixed[i], False), os.path.join(root, "ref", utt_name(i) + ".pt"))
+
+    def extra(self, r):
+        """the data-set keyword arguments that select rendition r"""
+        if self.kind == "spect":
+            return dict(feat_subdir="feat" if r == "a" else "feat_b")
+        return dict(file_prefix=r + "_")
+
+    def write(self, r, lens):
+        """(re)generate the files of rendition r: utterance i gets lens[i] frames / tokens"""
+        assert len(lens) == self.n
+        self.lens[r] = [int(x) for x in lens]
+        if self.kind == "spect":
+            d = os.path.join(self.root, self.extra(r)["feat_subdir"])
+            os.makedirs(d, exist_ok=True)
+            for i, T in enumerate(lens):
+                torch.save(feat_tensor(i + 1, T), os.path.join(d, utt_name(i) + ".pt"))
+        else:
+            for i, R in enumerate(lens):
+                torch.save(ref_tensor(i + 1, R, False), os.path.join(self.root, "ref", r + "_" + utt_name(i) + ".pt"))
+
+    def get(self, lens, variant):
+        if list(lens) != self.lens[self.current]:
+            raise MachineryError("history directory: rendition %r holds %r, the caller expects %r" % (
+                self.current, self.lens[self.current], lens))
+        return self.root, (list(self.lens[self.current]) if self.kind == "lang" else list(self.Rs_fixed))
 
 
 # ----------------------------------------------------------------------------- projection
